@@ -126,8 +126,19 @@ def _run(thunk, argv) -> Obs:
         except BaseException as ex:  # what the real CLI turns into a traceback + status 1
             if isinstance(ex, KeyboardInterrupt):
                 raise
-            code, crashed = 1, type(ex).__name__ + ": " + str(ex)[:200]
-    return Obs(tuple(argv), code, crashed, out.getvalue(), tuple(_RECORDS))
+            code, crashed = 1, type(ex).__name__ + ": " + _stable(str(ex))[:200]
+    return Obs(tuple(argv), code, crashed, out.getvalue(), tuple((lv, _stable(msg)) for lv, msg in _RECORDS))
+
+
+def _stable(text: str) -> str:
+    """Observations must not depend on where the scratch directory lives or on object addresses."""
+    try:
+        cwd = os.getcwd()
+    except OSError:
+        cwd = None
+    if cwd and cwd != "/":
+        text = text.replace(os.path.realpath(cwd), "<cwd>").replace(cwd, "<cwd>")
+    return re.sub(r"0x[0-9a-fA-F]{6,}", "0x...", text)
 
 
 def cli(*args: str) -> Obs:
